@@ -9,15 +9,20 @@
 // for both plugin paths (SIGNATURE_GENERATOR.ENVELOPE and SIGNATURE_GENERATOR.RAW).
 // The real PluginSigner.Sign / notation.SignBlob(PluginSigner) is run on every element.
 //
-// Oracle (implication only, from the statement): no panic ever; if (sig, info, nil)
-// is returned then sig is of the requested format, lib/refsig verifies it under its
-// own leaf certificate, it has the Notary payload type, and its payload decoded
-// STRICTLY (exact key spelling, no unknown members, no duplicates) carries the
-// requested mediaType / digest / size and every requested annotation; the plugin
-// echoed the requested envelope type (envelope path) / the requested key id on both
-// commands, described the key spec of the key that verifies the signature and the
-// returned chain is the one the plugin answered (raw path). Honest answers must
-// succeed (positive controls).
+// Oracle (implication only, and only what the statement says): no panic ever; if
+// (sig, info, nil) is returned then sig is of the requested format, lib/refsig
+// verifies it under its own leaf certificate, it has the Notary payload type, and its
+// payload decoded STRICTLY (exact key spelling, no unknown members; duplicates =
+// ambiguous = not judged) carries the requested mediaType / digest / size and every
+// requested annotation; for raw-signature plugins additionally the describe-key answer
+// the library relies on and the generate-signature answer named the requested key id,
+// the described key spec is one of the six names and is the spec of the key that
+// verifies the signature, and the leaf of the chain the plugin answered holds that
+// key. Everything else that is observable (echoed envelope type field, signerInfo,
+// byte identity of chains, number/order of plugin calls, error texts) is recorded in
+// outcome classes "recorded:<key>" and never an alarm. Honest answers must succeed
+// (positive controls). Every call of a two-call history on one PluginSigner is
+// judged like a call on a fresh signer.
 package main
 
 import (
@@ -54,7 +59,6 @@ import (
 const (
 	mtManifest = "application/vnd.oci.image.manifest.v1+json"
 	mtBlob     = "application/octet-stream"
-	keyID      = "verif-key-1"
 	otherKeyID = "verif-key-2"
 
 	famEnvelope = "envelope"
@@ -73,6 +77,8 @@ var (
 
 type world struct {
 	Spec       string
+	KeyID      string // one key id and one plugin name per key: a library that remembers checked answers per (plugin, key id) stays correct
+	PlugName   string
 	FwSpec     fw.KeySpec
 	key        crypto.Signer
 	other      crypto.Signer
@@ -120,7 +126,7 @@ func specOfKey(pub crypto.PublicKey) fw.KeySpec {
 }
 
 func buildWorld(spec string) *world {
-	w := &world{Spec: spec, FwSpec: fwSpecs[spec]}
+	w := &world{Spec: spec, FwSpec: fwSpecs[spec], KeyID: "verif-key-" + spec, PlugName: "verif-scripted-" + spec}
 	// keys first, one after the other (RSA generation is slow the first time; cached on disk afterwards)
 	w.key = pki.Key(spec, 0)
 	w.other = pki.Key(spec, 1)
@@ -603,7 +609,7 @@ func (p *plug) guard() func() {
 func (p *plug) GetMetadata(_ context.Context, _ *fw.GetMetadataRequest) (*fw.GetMetadataResponse, error) {
 	defer p.guard()()
 	p.calls = append(p.calls, "get-plugin-metadata")
-	m := &fw.GetMetadataResponse{Name: "verif-scripted", Description: "scripted in-process plugin", Version: "1.0.0", URL: "https://example.com/verif", SupportedContractVersions: []string{"1.0"}}
+	m := &fw.GetMetadataResponse{Name: p.w.PlugName, Description: "scripted in-process plugin", Version: "1.0.0", URL: "https://example.com/verif", SupportedContractVersions: []string{"1.0"}}
 	if p.family == famEnvelope {
 		m.Capabilities = []fw.Capability{fw.CapabilityEnvelopeGenerator}
 	} else {
@@ -1070,11 +1076,12 @@ func (h histT) String() string {
 }
 
 type histResult struct {
-	h     histT
-	calls []result
-	viols []viol // history level (aliasing of returned values)
-	infra string
-	skip  bool // not run: internal deadline
+	h        histT
+	calls    []result
+	viols    []viol // history level (aliasing of returned values)
+	recorded []string
+	infra    string
+	skip     bool // not run: internal deadline
 }
 
 func short(f string) string {
@@ -1092,14 +1099,17 @@ type result struct {
 	class      string // returned | returned-ambiguous-payload | rejected | panic | panic-recorded
 	errText    string
 	viols      []viol
+	recorded   []string // observations beyond the statement: evidence only (outcome classes "recorded:<key>")
 	infra      string
 	nontrivial bool
 	calls      string
+	want       want // what the caller requested in this call (for looking at the returned bytes again later)
 }
 
 type want struct {
 	MT      string
-	Digests []string
+	Digest  string // exact digest when the caller stated it
+	Content []byte // else: the digest must be the digest of this content under an available algorithm
 	Size    int64
 	Ann     [][2]string
 }
@@ -1115,69 +1125,37 @@ func annMap(a [][2]string) map[string]string {
 	return m
 }
 
-// wanted is the request as the CALLER stated it (for SignBlob: the blob, its media
-// type and the user metadata; the digest algorithm is the one bound to the key spec
-// the plugin described).
-func wanted(c caseT, p *plug, genAlg digest.Algorithm) want {
+// wanted is the request as the CALLER stated it. Sign and SignBlobDirect state the
+// whole descriptor; for notation.SignBlob the caller states the blob, its media type
+// and the user metadata - which digest algorithm the library picks is its own business.
+func wanted(c caseT, genAlg digest.Algorithm) want {
 	var w want
 	if c.Desc == "annotated" {
 		w.Ann = reqAnnotations
 	}
 	if c.Entry == "Sign" {
 		w.MT, w.Size = mtManifest, 100
-		w.Digests = []string{string(digest.SHA256.FromBytes(artifactContent))}
+		w.Digest = string(digest.SHA256.FromBytes(artifactContent))
 		return w
 	}
 	w.MT, w.Size = mtBlob, int64(len(blobContent))
 	if c.Entry == "SignBlobDirect" && genAlg != "" {
-		// the caller's generator stated the descriptor itself
-		w.Digests = []string{string(genAlg.FromBytes(blobContent))}
+		w.Digest = string(genAlg.FromBytes(blobContent)) // the caller's generator stated the descriptor itself
 		return w
 	}
-	if h, ok := specHash[p.dkSpec]; ok && p.dkHas {
-		w.Digests = []string{string(hashDigestAlg[h].FromBytes(blobContent))}
-	} else {
-		for _, a := range []digest.Algorithm{digest.SHA256, digest.SHA384, digest.SHA512} {
-			w.Digests = append(w.Digests, string(a.FromBytes(blobContent)))
-		}
-	}
+	w.Content = blobContent
 	return w
 }
 
-// judge evaluates the statement on a returned signature. It returns the reasons
-// (stable class names) why returning it violates C18, and whether the payload was ambiguous.
-func judge(c caseT, p *plug, genAlg digest.Algorithm, sig []byte, info *signature.SignerInfo) (reasons []string, ambiguous bool) {
+// judgeEnvelope evaluates the clauses of the statement that speak about the returned
+// bytes alone: requested format, verifies under its own leaf certificate, Notary
+// payload type, signed descriptor = requested descriptor with every annotation and no
+// unknown member.
+func judgeEnvelope(c caseT, w want, sig []byte) (ref *refsig.Result, reasons []string, ambiguous bool) {
 	add := func(s string) { reasons = append(reasons, s) }
-	// answers "for the request" (what the plugin really echoed, from its own log)
-	if c.Family == famEnvelope && p.geCalled && p.geEcho != p.geReqType {
-		add("accepted-wrong-envelope-type-echo")
-	}
-	if c.Family == famEnvelope && p.geCalled && p.geReqType != c.Format {
-		add("requested-other-envelope-type-than-the-caller")
-	}
-	if c.Family == famRaw {
-		// the key description the library relies on is the most recent describe-key answer it obtained on
-		// this signer object (in this call or, if it remembers answers, in an earlier call of the history)
-		if !p.dkHas {
-			add("returned-signature-without-a-key-description")
-		} else {
-			if p.dkID != keyID {
-				add("accepted-wrong-key-id:describe-key")
-			}
-			if _, canonical := specHash[p.dkSpec]; !canonical {
-				add("accepted-undecodable-key-spec") // not one of the six key spec names
-			}
-		}
-		if p.gsCalled && p.gsID != keyID {
-			add("accepted-wrong-key-id:generate-signature")
-		}
-	}
 	if len(sig) == 0 {
 		add("returned-empty-signature")
 		return
-	}
-	if info == nil {
-		add("returned-nil-signer-info")
 	}
 	ref, err := refsig.Verify(c.Format, sig)
 	if err != nil {
@@ -1186,54 +1164,25 @@ func judge(c caseT, p *plug, genAlg digest.Algorithm, sig []byte, info *signatur
 		} else {
 			add("returned-signature-that-does-not-verify")
 		}
-		return
+		return nil, reasons, false
 	}
 	if ref.ContentType != forge.PayloadType {
 		add("returned-wrong-payload-type")
 	}
-	if info != nil && (len(info.CertificateChain) == 0 || !bytes.Equal(info.CertificateChain[0].Raw, ref.Leaf.Raw)) {
-		add("returned-signer-info-of-another-chain")
-	}
-	if c.Family == famRaw {
-		if !p.gsCalled {
-			add("returned-signature-without-asking-the-plugin")
-		} else {
-			if len(p.gsChain) == 0 || !bytes.Equal(ref.Leaf.Raw, p.gsChain[0]) {
-				add("returned-chain-is-not-the-plugin's")
-			} else if info != nil {
-				same := len(info.CertificateChain) == len(p.gsChain)
-				for i := 0; same && i < len(p.gsChain); i++ {
-					same = bytes.Equal(info.CertificateChain[i].Raw, p.gsChain[i])
-				}
-				if !same {
-					add("returned-chain-is-not-the-plugin's")
-				}
-			}
-		}
-		leafSpec := specOfKey(ref.Leaf.PublicKey)
-		if p.dkHas && p.dkSpec != leafSpec {
-			add("described-key-spec-inconsistent-with-signing-key")
-		}
-		if specAlg[leafSpec] != ref.Alg {
-			add("signature-algorithm-not-bound-to-signing-key")
-		}
-	}
 	d, amb, why := strictDescriptor(ref.Payload)
 	if amb {
-		return reasons, true
+		return ref, reasons, true
 	}
 	if why != "" {
 		add("returned-payload-not-strict:" + why)
 		return
 	}
-	if c.Entry == "SignBlobDirect" && genAlg == "" {
-		add("returned-signature-without-asking-for-the-descriptor")
-	}
-	w := wanted(c, p, genAlg)
 	okDigest := false
-	for _, x := range w.Digests {
-		if d.Digest == x {
-			okDigest = true
+	if w.Content == nil {
+		okDigest = d.Digest == w.Digest
+	} else if i := strings.IndexByte(d.Digest, ':'); i > 0 {
+		if alg := digest.Algorithm(d.Digest[:i]); alg.Available() {
+			okDigest = d.Digest == string(alg.FromBytes(w.Content))
 		}
 	}
 	if !okDigest {
@@ -1252,6 +1201,96 @@ func judge(c caseT, p *plug, genAlg digest.Algorithm, sig []byte, info *signatur
 		}
 	}
 	return
+}
+
+func samePublicKey(a, b crypto.PublicKey) bool {
+	type eq interface{ Equal(crypto.PublicKey) bool }
+	x, ok := a.(eq)
+	return ok && x.Equal(b)
+}
+
+// judge evaluates the statement on a returned signature. reasons: stable class names
+// of why returning it violates C18. recorded: observations the statement does not
+// speak about (evidence only). ambiguous: the payload has duplicate members.
+func judge(c caseT, p *plug, w want, genAlg digest.Algorithm, sig []byte, info *signature.SignerInfo) (reasons, recorded []string, ambiguous bool) {
+	add := func(s string) { reasons = append(reasons, s) }
+	rec := func(s string) { recorded = append(recorded, s) }
+	// ---- beyond the statement: recorded only
+	if c.Family == famEnvelope && p.geCalled && p.geEcho != p.geReqType {
+		rec("accepted-wrong-envelope-type-echo") // the statement speaks about the format of the envelope, not about the echoed field
+	}
+	if c.Family == famEnvelope && p.geCalled && p.geReqType != c.Format {
+		rec("requested-other-envelope-type-than-the-caller")
+	}
+	if c.Family == famEnvelope && !p.geCalled {
+		rec("returned-signature-without-asking-the-plugin")
+	}
+	if c.Entry == "SignBlobDirect" && genAlg == "" {
+		rec("returned-signature-without-asking-for-the-descriptor")
+	}
+	if info == nil {
+		rec("returned-nil-signer-info")
+	}
+	// ---- raw-signature plugins: "only if the plugin answered for the requested key id with a key spec and
+	// certificate chain consistent with the signature"
+	if c.Family == famRaw {
+		// the key description the library relies on is the most recent describe-key answer it obtained on
+		// this signer object (in this call or, if it remembers answers, in an earlier call of the history)
+		if !p.dkHas {
+			rec("returned-signature-without-a-key-description")
+		} else {
+			if p.dkID != p.w.KeyID {
+				add("accepted-wrong-key-id:describe-key")
+			}
+			if _, canonical := specHash[p.dkSpec]; !canonical {
+				add("accepted-undecodable-key-spec") // not one of the six key spec names
+			}
+		}
+		if p.gsCalled && p.gsID != p.w.KeyID {
+			add("accepted-wrong-key-id:generate-signature")
+		}
+		if !p.gsCalled {
+			rec("returned-signature-without-asking-the-plugin")
+		}
+	}
+	ref, why, amb := judgeEnvelope(c, w, sig)
+	reasons = append(reasons, why...)
+	if ref == nil {
+		return reasons, recorded, amb
+	}
+	if info != nil && (len(info.CertificateChain) == 0 || !bytes.Equal(info.CertificateChain[0].Raw, ref.Leaf.Raw)) {
+		rec("returned-signer-info-of-another-chain")
+	}
+	if c.Family == famRaw {
+		leafSpec := specOfKey(ref.Leaf.PublicKey)
+		if p.dkHas && p.dkSpec != leafSpec {
+			add("described-key-spec-inconsistent-with-signing-key")
+		}
+		if specAlg[leafSpec] != ref.Alg {
+			rec("signature-algorithm-not-bound-to-signing-key")
+		}
+		if p.gsCalled {
+			// the chain the plugin answered must be consistent with the signature: its leaf holds the verifying key
+			consistent := false
+			if len(p.gsChain) > 0 {
+				if leaf, err := x509.ParseCertificate(p.gsChain[0]); err == nil {
+					consistent = samePublicKey(leaf.PublicKey, ref.Leaf.PublicKey)
+				}
+			}
+			if !consistent {
+				add("plugin-chain-inconsistent-with-the-signature")
+			}
+			// byte identity of the returned chain with the answered chain is not demanded by the statement
+			same := info != nil && len(info.CertificateChain) == len(p.gsChain) && len(p.gsChain) > 0 && bytes.Equal(ref.Leaf.Raw, p.gsChain[0])
+			for i := 0; same && i < len(p.gsChain); i++ {
+				same = bytes.Equal(info.CertificateChain[i].Raw, p.gsChain[i])
+			}
+			if !same {
+				rec("returned-chain-differs-from-the-plugin's-answer")
+			}
+		}
+	}
+	return reasons, recorded, amb
 }
 
 func firstLine(s string, n int) string {
@@ -1275,7 +1314,7 @@ func runHistory(h histT, worlds map[string]*world, answers map[string]*answer) (
 		return
 	}
 	p := &plug{w: w, family: h.Family}
-	ps, err := signer.NewPluginSigner(p, keyID, map[string]string{"cfg": "1"})
+	ps, err := signer.NewPluginSigner(p, w.KeyID, map[string]string{"cfg": "1"})
 	if err != nil {
 		hr.infra = "NewPluginSigner: " + err.Error()
 		return
@@ -1302,10 +1341,18 @@ func runHistory(h histT, worlds map[string]*world, answers map[string]*answer) (
 			keep = append(keep, kept{i, sig, append([]byte(nil), sig...)})
 		}
 	}
+	// what earlier calls returned is looked at again after the later calls: if the bytes the caller holds were
+	// changed, they are judged again (the statement is about what the caller holds, not about byte identity)
 	for _, k := range keep {
 		if k.i < len(h.Calls)-1 && !bytes.Equal(k.sig, k.cpy) {
-			hr.viols = append(hr.viols, viol{h.Family + "/returned-signature-changed-by-a-later-call",
-				fmt.Sprintf("the signature returned by call %d of history %v has other bytes after the later calls", k.i+1, h)})
+			hr.recorded = append(hr.recorded, h.Family+"/returned-signature-changed-by-a-later-call")
+			if hr.calls[k.i].class == "returned" {
+				_, reasons, _ := judgeEnvelope(h.call(k.i), hr.calls[k.i].want, k.sig)
+				for _, why := range reasons {
+					hr.viols = append(hr.viols, viol{h.Family + "/" + why,
+						fmt.Sprintf("the signature returned by call %d of history %v was changed by the later calls and now: %s", k.i+1, h, why)})
+				}
+			}
 		}
 	}
 	return
@@ -1378,13 +1425,17 @@ func runCall(c caseT, a *answer, p *plug, ps *signer.PluginSigner, idx, n int) (
 		res.class = "rejected"
 		res.errText = firstLine(serr.Error(), 160)
 		if sig != nil || info != nil {
-			res.viols = append(res.viols, viol{c.Family + "/signature-returned-together-with-an-error", fmt.Sprintf("%s%s returned an error AND a signature/signerInfo for answer %q", where, c.Entry, a.Name)})
+			res.recorded = append(res.recorded, c.Family+"/signature-returned-together-with-an-error") // "returns an error" is all the statement says
 		}
 		return
 	}
 	res.nontrivial = true
 	retSig = sig
-	reasons, amb := judge(c, p, genAlg, sig, info)
+	res.want = wanted(c, genAlg)
+	reasons, recorded, amb := judge(c, p, res.want, genAlg, sig, info)
+	for _, k := range recorded {
+		res.recorded = append(res.recorded, c.Family+"/"+k)
+	}
 	res.class = "returned"
 	if amb {
 		res.class = "returned-ambiguous-payload"
@@ -1430,7 +1481,8 @@ func main() {
 		"oracle signature check is lib/refsig (standard library + cbor decoding only); the payload is decoded by a strict token-level decoder (exact key spelling, unknown members rejected except the known descriptor members urls/data/platform/artifactType, duplicates = ambiguous = not judged)",
 		"annotations added by the plugin are allowed (signer/plugin.go: 'Plugins may append additional annotations'); known-but-unrequested descriptor members and an inconsistent signingAlgorithm response field are recorded, not judged",
 		"a Go plugin method returning (nil, nil) is outside the stated alphabet of plugin answers: recorded only",
-		"for SignBlob the requested digest is the blob's digest under the algorithm bound to the key spec the plugin described",
+		"for notation.SignBlob the caller states blob, media type and metadata: the signed digest must be the blob's digest under any available algorithm; Sign and SignBlob-with-generator state the digest exactly",
+		"only what the statement says is enforced; observations beyond it (echoed envelope type field, signerInfo contents, byte identity of the returned chain, algorithm/key-size binding, number and order of plugin calls, a value returned together with an error) are outcome classes 'recorded:<key>'",
 		"a key spec string other than the six names RSA-2048/3072/4096, EC-256/384/521 is undecodable (hand-labelled near-canonical spellings); the key description the library relies on is the most recent describe-key answer it obtained on that signer object, so remembering an answer that was checked is not a violation, relying on one that was rejected is",
 		"histories have length 2; longer histories and concurrent calls on one signer are not explored",
 	}
@@ -1469,9 +1521,15 @@ func main() {
 			for _, v := range res.viols {
 				r.Violation(v.key, v.what, hr.h)
 			}
+			for _, k := range res.recorded {
+				r.Outcome("recorded:" + k)
+			}
 		}
 		for _, v := range hr.viols {
 			r.Violation(v.key, v.what, hr.h)
+		}
+		for _, k := range hr.recorded {
+			r.Outcome("recorded:" + k)
 		}
 		if hr.h.Shape == "single" {
 			r.Outcome(hr.h.Family + "/" + hr.h.Calls[0].Answer + ":" + classes[0])
